@@ -2,6 +2,7 @@
 from .common import *  # noqa: F403
 from spacepackets.cfdp.conf import PduConfig
 from spacepackets.util import UnsignedByteField, ByteFieldGenerator
+from spacepackets.cfdp.defs import TransmissionMode, LargeFileFlag, CrcFlag, Direction, SegmentationControl
 
 ALL_WIDTHS = [(i, s) for i in (1, 2, 4, 8) for s in (1, 2, 4, 8)]
 QUICK_WIDTHS = [(1, 1), (2, 4)]
@@ -22,8 +23,9 @@ def sym_conf(ctx, idw, seqw, crc=None, large=None, prefix="", segctrl=None):
         crc=ctx.flag(prefix + "crc") if crc is None else crc,
         large=ctx.flag(prefix + "large") if large is None else large, idw=idw, seqw=seqw)
     conf = PduConfig(source_entity_id=UnsignedByteField(v["src"], idw), dest_entity_id=UnsignedByteField(v["dst"], idw),
-                     transaction_seq_num=UnsignedByteField(v["seq"], seqw), trans_mode=v["mode"],
-                     file_flag=v["large"], crc_flag=v["crc"], direction=v["direction"], seg_ctrl=v["segctrl"])
+                     transaction_seq_num=UnsignedByteField(v["seq"], seqw), trans_mode=en(ctx, TransmissionMode, v["mode"]),
+                     file_flag=en(ctx, LargeFileFlag, v["large"]), crc_flag=en(ctx, CrcFlag, v["crc"]),
+                     direction=en(ctx, Direction, v["direction"]), seg_ctrl=en(ctx, SegmentationControl, v["segctrl"]))
     return conf, v
 
 
